@@ -78,6 +78,122 @@ Section Legal.
   Lemma Forall_len blocks : Forall block_ok blocks -> Forall (fun x => length x = 512%nat) blocks.
   Proof. intros H. eapply Forall_impl; [|exact H]. intros x [Hl _]. exact Hl. Qed.
 
+  (* ---- a block number at or beyond the card's capacity: the command is rejected (R1 = 0x40) and
+     the driver reports it (D20 repaired); nothing else goes over the bus ------------------------- *)
+  Lemma decode_addr_oor c idx : k_kind c = kd -> k_csd c = csd -> NB <= idx ->
+    decode_addr c (addr_of kd idx) = inr 64.
+  Proof.
+    intros Hk Hc Hi. unfold decode_addr, addr_of, nblocks. rewrite Hk, Hc.
+    assert (L : (idx <? NB) = false) by (apply N.ltb_ge; exact Hi).
+    destruct kd; try (rewrite N.mod_mul by discriminate; cbn [N.eqb negb]; rewrite N.div_mul by discriminate);
+      rewrite L; reflexivity.
+  Qed.
+
+  Lemma cmd_rejected_sys cmd mem il tk k t last idx :
+    (cmd = 17 \/ cmd = 18 \/ cmd = 24 \/ cmd = 25) ->
+    (k <= N.to_nat COMMAND_RETRIES)%nat -> NB <= idx -> addr_of kd idx < 2 ^ 32 ->
+    mon t = inl (mkh HFree last IReady crc false) ->
+    exists t',
+      card_command card card_spi cmd (addr_of kd idx)
+        (sys (MKC mem false crc false il false tk (BUSY k) PIdle) t (Some (type_of kd))) =
+        (Ok 64, sys (MKC mem false crc false il false (tk + 1) [] PIdle) t' (Some (type_of kd))) /\
+      mon t' = inl (mkh HFree 64 IReady crc false).
+  Proof.
+    intros Hcmd Hk Hi Ha Hm.
+    destruct (card_command_sys cmd (addr_of kd idx) k (MKC mem false crc false il false tk (BUSY k) PIdle) t (Some (type_of kd))
+                (mkh HFree last IReady crc false)
+                (MKC mem false crc false il false (tk + 1) (FF (t_ncr tim tk) ++ [64]) PIdle)
+                (t_ncr tim tk) 64 []) as (t1 & E1 & M1);
+      try reflexivity; try assumption; try apply (ncr_ok tim Htim);
+      try (destruct Hcmd as [-> | [-> | [-> | ->]]]; first [reflexivity | discriminate]).
+    { destruct Hcmd as [-> | [-> | [-> | ->]]]; unfold exec; cbn -[FF BUSY t_ncr t_nac decode_addr data_packet];
+        rewrite decode_addr_oor by (try reflexivity; exact Hi); reflexivity. }
+    exists t1. split; [exact E1|]. rewrite M1. destruct Hcmd as [-> | [-> | [-> | ->]]]; reflexivity.
+  Qed.
+
+  Lemma start_idx_oor c t idx err : NB <= idx ->
+    start_idx card idx err (sys c t (Some (type_of kd))) = (Err err, sys c t (Some (type_of kd))) \/
+    (start_idx card idx err (sys c t (Some (type_of kd))) = (Ok (addr_of kd idx), sys c t (Some (type_of kd))) /\
+     (idx < 2 ^ 32 -> addr_of kd idx < 2 ^ 32)).
+  Proof.
+    intros Hi. unfold start_idx, bind, get_ctype, addr_of. cbn [ctype sys].
+    destruct kd; cbn [type_of].
+    - destruct (N.leb_spec (2 ^ 32) (idx * 512)); [left; reflexivity|right; split; [reflexivity|intros _; assumption]].
+    - destruct (N.leb_spec (2 ^ 32) (idx * 512)); [left; reflexivity|right; split; [reflexivity|intros _; assumption]].
+    - right. split; [reflexivity|intros H; exact H].
+  Qed.
+
+  Lemma read_oor_sys s mem n idx : Ready s mem -> NB <= idx -> idx < 2 ^ 32 ->
+    exists s', read_inner card card_spi o n idx s = (Err ReadError, s') /\ Ready s' mem.
+  Proof.
+    intros (il & tk & k & t & last & -> & Hk & Hm) Hi H32. unfold read_inner. unfold bind at 1.
+    destruct (start_idx_oor (MKC mem false crc false il false tk (BUSY k) PIdle) t idx ReadError Hi) as [E|[E Ha]]; rewrite E.
+    - eexists. split; [reflexivity|]. exists il, tk, k, t, last. split; [reflexivity|]. split; assumption.
+    - assert (R : forall cmd, cmd = 17 \/ cmd = 18 -> exists t',
+                  card_command card card_spi cmd (addr_of kd idx) (sys (MKC mem false crc false il false tk (BUSY k) PIdle) t (Some (type_of kd))) =
+                  (Ok 64, sys (MKC mem false crc false il false (tk + 1) [] PIdle) t' (Some (type_of kd))) /\
+                  mon t' = inl (mkh HFree 64 IReady crc false)).
+      { intros cmd Hc. apply (cmd_rejected_sys cmd mem il tk k t last idx); try assumption; [|apply Ha, H32].
+        destruct Hc as [-> | ->]; auto. }
+      destruct n as [|[|n]].
+      + destruct (R 18 (or_intror eq_refl)) as (t' & E18 & M).
+        eexists. split; [unfold bind, CMD18; rewrite E18; reflexivity|].
+        exists il, (tk + 1), O, t', 64. split; [reflexivity|]. split; [lia|exact M].
+      + destruct (R 17 (or_introl eq_refl)) as (t' & E17 & M).
+        eexists. split; [unfold bind, CMD17; rewrite E17; reflexivity|].
+        exists il, (tk + 1), O, t', 64. split; [reflexivity|]. split; [lia|exact M].
+      + destruct (R 18 (or_intror eq_refl)) as (t' & E18 & M).
+        eexists. split; [unfold bind, CMD18; rewrite E18; reflexivity|].
+        exists il, (tk + 1), O, t', 64. split; [reflexivity|]. split; [lia|exact M].
+  Qed.
+
+  Lemma write_oor_sys s mem blocks idx : Ready s mem -> NB <= idx -> idx < 2 ^ 32 ->
+    exists s', write_inner card card_spi o blocks idx s = (Err WriteError, s') /\ Ready s' mem.
+  Proof.
+    intros (il & tk & k & t & last & -> & Hk & Hm) Hi H32. unfold write_inner. unfold bind at 1.
+    destruct (start_idx_oor (MKC mem false crc false il false tk (BUSY k) PIdle) t idx WriteError Hi) as [E|[E Ha]]; rewrite E.
+    - eexists. split; [reflexivity|]. exists il, tk, k, t, last. split; [reflexivity|]. split; assumption.
+    - specialize (Ha H32). set (ct := Some (type_of kd)).
+      assert (Multi : exists s',
+        bind card (card_acmd card card_spi ACMD23 (N.of_nat (length blocks) mod 2 ^ 32)) (fun _ =>
+        bind card (wait_not_busy card card_spi (N.to_nat WRITE_RETRIES)) (fun _ =>
+        bind card (card_command card card_spi CMD25 (addr_of kd idx)) (fun r =>
+        if negb (r =? 0) then fail card WriteError else
+        bind card (attempt card (bind card (write_blocks card card_spi o blocks)
+                                   (fun _ => wait_not_busy card card_spi (N.to_nat WRITE_RETRIES)))) (fun result =>
+        match result with
+        | Ok _ => write_byte card card_spi STOP_TRAN_TOKEN
+        | Err e => bind card (attempt card (card_command card card_spi CMD12 0)) (fun _ => fail card e)
+        | Panic => panic card
+        end))))
+        (sys (MKC mem false crc false il false tk (BUSY k) PIdle) t ct) = (Err WriteError, s') /\ Ready s' mem).
+      { destruct (cmd55_sys kd csd tim Htim mem false crc il tk k t ct last IReady Hk Hm (or_introl eq_refl)) as (t1 & E1 & M1).
+        set (cnt := N.of_nat (length blocks) mod 2 ^ 32).
+        assert (Hcnt : cnt < 2 ^ 32) by (apply N.mod_lt; discriminate).
+        destruct (card_command_sys 23 cnt O (MKC mem false crc true il false (tk + 1) (BUSY 0) PIdle) t1 ct
+                    (mkh HFree 0 IReady crc true)
+                    (MKC mem false crc false il false (tk + 1 + 1) (FF (t_ncr tim (tk + 1)) ++ [0]) PIdle)
+                    (t_ncr tim (tk + 1)) 0 []) as (t2 & E2 & M2);
+          try reflexivity; try assumption; try discriminate; try apply (ncr_ok tim Htim); try lia.
+        change (sys (set_out _ _ _) t2 ct) with (sys (MKC mem false crc false il false (tk + 1 + 1) [] PIdle) t2 ct) in E2.
+        change (BUSY 0) with (@nil N) in E2.
+        destruct (wait_not_busy_sys (N.to_nat WRITE_RETRIES) O (MKC mem false crc false il false (tk + 1 + 1) [] PIdle)
+                    t2 ct ltac:(lia) eq_refl eq_refl (or_introl eq_refl)) as (t3 & E3 & M3).
+        change (set_out _ [] _) with (MKC mem false crc false il false (tk + 1 + 1) (BUSY 0) PIdle) in E3.
+        assert (M3' : mon t3 = inl (mkh HFree 255 IReady crc false)).
+        { rewrite M3, M2. rewrite hpolls_busy by (left; reflexivity). reflexivity. }
+        destruct (cmd_rejected_sys 25 mem il (tk + 1 + 1) O t3 255 idx ltac:(auto) ltac:(lia) Hi Ha M3') as (t4 & E4 & M4).
+        eexists. split.
+        - unfold card_acmd. unfold bind at 1. unfold bind at 1. unfold CMD55 in E1. unfold CMD55. rewrite E1.
+          unfold ACMD23. change (if false then 1 else 0) with 0 in E2. rewrite E2.
+          unfold bind at 1. rewrite E3. unfold CMD25. unfold bind at 1. fold ct in E4. rewrite E4. reflexivity.
+        - exists il, (tk + 1 + 1 + 1), O, t4, 64. split; [reflexivity|]. split; [lia|exact M4]. }
+      destruct blocks as [|b [|b2 bs]]; try exact Multi.
+      destruct (cmd_rejected_sys 24 mem il tk k t last idx ltac:(auto) Hk Hi Ha Hm) as (t' & E24 & M).
+      eexists. split; [unfold bind, CMD24; rewrite E24; reflexivity|].
+      exists il, (tk + 1), O, t', 64. split; [reflexivity|]. split; [lia|exact M].
+  Qed.
+
   (* ---- one call --------------------------------------------------------------------------------- *)
   Lemma with_init_step {A} (m : M card A) (k : A -> api_value) s mem mem' v :
     Inv s mem ->
